@@ -434,6 +434,25 @@ func callVerifEnv(fr *frame, name string, args []value) (value, bool) {
 			panic(pathEnd{"harness-error", "verifLockHeld wants a pointer to a mutex"})
 		}
 		return lockHeld(ptr), true
+	case "verifWatchCalls":
+		// verifWatchCalls(names, cb): cb(name) runs on every call of a function whose
+		// full name (ssa Function.String()) is listed; nil cb switches it off
+		P.watchNames = nil
+		for _, n := range args[0].([]value) {
+			P.watchNames = append(P.watchNames, goString(n))
+		}
+		P.watchHit = map[*ssa.Function]bool{}
+		switch f := args[1].(type) {
+		case *closure:
+			P.watchCB = f
+		case *ssa.Function:
+			if f == nil {
+				P.watchCB = nil
+			} else {
+				P.watchCB = f
+			}
+		}
+		return nil, true
 	case "verifGoroutine":
 		return sched.cur.id, true
 	case "verifMapOrderChoice":
